@@ -5,9 +5,10 @@
      ch_remove_WF              WF s -> WF (fst (ch_remove s o c))                    (no condition on o, c)
      ch_remove_all_WF          WF s -> WF (fst (ch_remove_all s o ids))
      op_floordiv_WF            WF s -> o < length (hp s) -> pubs s vs -> WF (fst (op_floordiv s o vs))
+     lst_set_children_WF       WF s -> ts allocated -> pubs s vs -> WF (fst (lst_set_children s ts vs))
      wbs_remove_task_WF, wbs_remove_WF, wbs_remove_all_WF        (no condition on the arguments)
      *_pub                     none of these operations changes which objects are public
-     children_args_pub s o, children_step_WF, children_step_pub  the six operations as steps of [step]
+     children_args_pub s o, children_step_WF, children_step_pub  the seven operations as steps of [step]
      own_guard, set_parent_guard_own_clause                      the ownership clause of set_parent_guard
      ch_remove_releases        C11: after an accepted children.remove(t) the task t has no parent, nothing
                                below t has an owner, t is in no WBS, and the ownership clause of a later
@@ -77,6 +78,36 @@ Qed.
 Theorem op_floordiv_pub s o vs x : pub (fst (op_floordiv s o vs)) x <-> pub s x.
 Proof. unfold op_floordiv. apply set_children_pub. Qed.
 
+(* ---- ts.children = vs on a task list: one setter call per element, undone as a whole ---- *)
+Theorem lst_set_children_pub s ts vs y : pub (fst (lst_set_children s ts vs)) y <-> pub s y.
+Proof.
+  unfold lst_set_children, all_or_nothing.
+  destruct (snd (lst_set_children_seq s ts vs)) as [[]| |c]; cbn [fst]; [|reflexivity..]. unfold lst_set_children_seq.
+  apply (seq_calls_inv (fun s' => pub s' y <-> pub s y) (fun s' t => set_children s' t vs)); [|reflexivity].
+  intros s' c _ H. rewrite set_children_pub. exact H.
+Qed.
+
+Theorem lst_set_children_seq_WF s ts vs :
+  WF s -> (forall t, In t ts -> t < length (hp s)) -> pubs s vs -> WF (fst (lst_set_children_seq s ts vs)).
+Proof.
+  intros W Lt Pv. unfold lst_set_children_seq.
+  apply (seq_calls_inv (fun s' => WF s' /\ length (hp s') = length (hp s) /\ forall y, pub s' y <-> pub s y)
+           (fun s' t => set_children s' t vs));
+    [|split; [exact W|split; reflexivity]].
+  intros s' t Ht (W' & L & E). split; [|split].
+  - apply set_children_WF; [exact W'|rewrite L; apply Lt, Ht|]. eapply pubs_frame; [exact E|exact Pv].
+  - rewrite <- L. apply cf_len. apply set_children_shape.
+  - intro y. rewrite set_children_pub. apply E.
+Qed.
+
+Theorem lst_set_children_WF s ts vs :
+  WF s -> (forall t, In t ts -> t < length (hp s)) -> pubs s vs -> WF (fst (lst_set_children s ts vs)).
+Proof.
+  intros W Lt Pv. unfold lst_set_children, all_or_nothing.
+  destruct (snd (lst_set_children_seq s ts vs)) as [[]| |c]; cbn [fst]; [|exact W..].
+  apply lst_set_children_seq_WF; assumption.
+Qed.
+
 (* ---- WBS.remove / WBS.remove_all ---- *)
 Theorem wbs_remove_task_WF s w t : WF s -> WF (fst (wbs_remove_task s w t)).
 Proof.
@@ -110,12 +141,12 @@ Proof.
   intros s' c _ H. rewrite wbs_remove_task_pub. exact H.
 Qed.
 
-(* ================= the six operations as steps ================= *)
+(* ================= the seven operations as steps ================= *)
 (* the receiving task may be a hidden WBS root (wbs.roots = ..., wbs // ...); the tasks handed over are
    public objects *)
 Definition children_args_pub (s : state) (o : op) : Prop :=
   match o with
-  | SetChildren t vs | OpFloordiv t vs => pubs s vs
+  | SetChildren _ vs | OpFloordiv _ vs | LstSetChildren _ vs => pubs s vs
   | ChRemove _ _ | ChRemoveAll _ _ | WbsRemove _ _ | WbsRemoveAll _ _ => True
   | _ => False
   end.
@@ -131,6 +162,8 @@ Proof.
   - apply ch_remove_WF; exact W.
   - apply ch_remove_all_WF; exact W.
   - apply andb_true_iff in Ok. destruct Ok as [Ok _]. apply op_floordiv_WF; [exact W | apply okobj_lt; exact Ok | exact A].
+  - apply andb_true_iff in Ok. destruct Ok as [Ok _]. apply lst_set_children_WF; [exact W | | exact A].
+    intros t Ht. apply okobj_lt. apply (proj1 (forallb_forall _ _) Ok t Ht).
   - apply wbs_remove_WF; exact W.
   - apply wbs_remove_all_WF; exact W.
 Qed.
@@ -143,6 +176,7 @@ Proof.
   - apply ch_remove_pub.
   - apply ch_remove_all_pub.
   - apply op_floordiv_pub.
+  - apply lst_set_children_pub.
   - apply wbs_remove_pub.
   - apply wbs_remove_all_pub.
 Qed.
